@@ -43,6 +43,12 @@ structure FoldInv (k : Nat) (cols : List (List Nat)) (st : LState) (hist : List 
   sub : ∀ (j : Nat) (w : List Nat), stp.2.1[j]? = some w → w.isEmpty = false → st.ws[j]? = some w
   q : ∀ j, j < st.ws.length → Q k cols (hist.getD j []) stp.2.2 =
     if j < j0 ∧ Projected st.ws st.masks st.ws.length j then 0 else Q k cols (hist.getD j []) next0
+  /-- against a block A-orthogonal to the whole history the projections change nothing -/
+  xform : ∀ X, BlockOK cols.length X → (∀ l, l < st.ws.length → Q k cols X (hist.getD l []) = 0) →
+    Q k cols X stp.2.2 = Q k cols X next0
+  /-- a block emptied by this loop had `mask == 0` -/
+  purgeRec : ∀ (j : Nat) (w : List Nat), stp.2.1[j]? = some w → w.isEmpty = true →
+    (∃ w0, st.ws[j]? = some w0 ∧ w0.isEmpty = true) ∨ maskFor st.masks j st.ws.length = some 0
 
 theorem projStep_checked_inv {k : Nat} {cols : List (List Nat)} (hM : MatOK k cols) {st : LState}
     {hist : List (List Nat)} {Ss : List Nat} {next0 av : List Nat}
@@ -53,8 +59,8 @@ theorem projStep_checked_inv {k : Nat} {cols : List (List Nat)} (hM : MatOK k co
     ∃ stp', projStep true (qsOptimize k cols) av st.invgs st.masks st.ws.length stp j0 = some stp' ∧
       FoldInv k cols st hist next0 (j0 + 1) stp' := by
   obtain ⟨vs, ws, next⟩ := stp
-  obtain ⟨⟨hv, hw, hwOK, hnext⟩, hsame, hsub, hq⟩ := hF
-  simp only at hv hw hwOK hnext hsame hsub hq
+  obtain ⟨⟨hv, hw, hwOK, hnext⟩, hsame, hsub, hq, hx, hpr⟩ := hF
+  simp only at hv hw hwOK hnext hsame hsub hq hx hpr
   have hwj : ws[j0]? = some (st.ws[j0]'hj0) := by rw [hsame j0 (Nat.le_refl _), List.getElem?_eq_getElem hj0]
   have hgetD : st.ws.getD j0 [] = st.ws[j0]'hj0 := by
     simp [List.getD_eq_getElem?_getD, List.getElem?_eq_getElem hj0]
@@ -64,7 +70,7 @@ theorem projStep_checked_inv {k : Nat} {cols : List (List Nat)} (hM : MatOK k co
   -- the three cases of the body
   cases he : (st.ws[j0]'hj0).isEmpty with
   | true =>
-    refine ⟨(vs, ws, next), ?_, ⟨hv, hw, hwOK, hnext⟩, fun j hj => hsame j (by omega), hsub, ?_⟩
+    refine ⟨(vs, ws, next), ?_, ⟨hv, hw, hwOK, hnext⟩, fun j hj => hsame j (by omega), hsub, ?_, hx, hpr⟩
     · unfold projStep; simp only [hwj, he, if_true]
     · intro j hj
       rw [hq j hj]
@@ -90,7 +96,14 @@ theorem projStep_checked_inv {k : Nat} {cols : List (List Nat)} (hM : MatOK k co
         have := hC.threeTerm j0 hj0 hnp
         rw [← hwh] at this
         exact this
-      refine ⟨(vs.set j0 [], ws.set j0 [], next), ?_, ⟨by simp [hv], by simp [hw], ?_, hnext⟩, ?_, ?_, ?_⟩
+      refine ⟨(vs.set j0 [], ws.set j0 [], next), ?_, ⟨by simp [hv], by simp [hw], ?_, hnext⟩, ?_, ?_, ?_, hx, ?_⟩
+      rotate_right
+      · intro j w hjw hwe
+        have hjw' : (ws.set j0 [])[j]? = some w := hjw
+        by_cases e : j0 = j
+        · subst e; exact Or.inr hm
+        · rw [List.getElem?_set_ne e] at hjw'
+          exact hpr j w hjw' hwe
       · unfold projStep
         simp only [hwj, he, Bool.false_eq_true, if_false, hm, if_true, hz, bne_self_eq_false, Bool.and_false,
           show j0 < vs.length by omega]
@@ -131,7 +144,17 @@ theorem projStep_checked_inv {k : Nat} {cols : List (List Nat)} (hM : MatOK k co
         exact this
       obtain ⟨next', hstep, hn'OK, hn'M, horth⟩ := projStep_checked_ok hM (vs := vs) (ws := ws) hn0 hav hnext hwj he
         hm hm0 hig hK hcomm
-      refine ⟨(vs, ws, next'), hstep, ⟨hv, hw, hwOK, hn'OK⟩, fun j hj => hsame j (by omega), hsub, ?_⟩
+      refine ⟨(vs, ws, next'), hstep, ⟨hv, hw, hwOK, hn'OK⟩, fun j hj => hsame j (by omega), hsub, ?_, ?_, hpr⟩
+      rotate_left
+      · intro X hX hall
+        show (CM cols.length X)ᵀ * gramA k cols * cellMat next'.toArray cols.length = _
+        rw [hn'M, Matrix.mul_add, ← Matrix.mul_assoc]
+        have hXw : (CM cols.length X)ᵀ * gramA k cols * cellMat (st.ws[j0]'hj0).toArray cols.length = 0 := by
+          have := hall j0 hj0
+          rw [← hwh] at this
+          exact this
+        rw [hXw, Matrix.zero_mul, add_zero]
+        exact hx X hX hall
       intro j hj
       show Q k cols (hist.getD j []) next' = _
       by_cases e : j = j0
